@@ -206,6 +206,7 @@ func (s *Signaller) getAllSignalIDs() []string {
 	for signalID := range s.signalIDToFeed {
 		signalIDs = append(signalIDs, signalID)
 	}
+	orderSignalIDs(signalIDs)
 
 	return signalIDs
 }
